@@ -49,8 +49,12 @@ CFG = dict(
         "Go slices handed to the decoders have cap == len (harness clamps them), as the model's sub_ assumes",
         "allocation measure: the model counts the bytes requested by make(), by bufio.ReadBytes, by string([]byte) "
         "conversions and per appended element; Go's size classes, amortised append growth and small bookkeeping "
-        "objects are covered by the factor 4 (+8 KiB) with which runtime.MemStats.TotalAlloc of the real call is "
-        "compared; runtime.makeslice is modelled as: panic for a negative length or more than 2^48 bytes, otherwise "
+        "objects are covered by the factor 4 (+4 KiB) with which runtime.MemStats.TotalAlloc of the real call is "
+        "compared; error values of immudb's pkg/errors capture debug.Stack() (buffers of 1, 2, 4 .. KiB until the trace "
+        "fits + the trace string: a cost that depends on the caller's depth, not on the input) and are taken out of the "
+        "observation first: exactly, from the trace length, for the errors the harness received; for errors the receiver "
+        "constructs and drops (exec-all ignores the error of a ZAdd body's ReadValue) the model reports their number "
+        "and the cost of one such error is calibrated on the same call path (+128 trace bytes of margin); runtime.makeslice is modelled as: panic for a negative length or more than 2^48 bytes, otherwise "
         "the request (the out-of-memory crash of the runtime for requests the machine cannot serve is not a value "
         "of the model: such inputs appear as an allocation measure only)",
         "bytes.Buffer.Read, io.ReadFull, binary.Read (8-byte numbers), io.SectionReader.Read / NewSectionReader and "
